@@ -647,3 +647,73 @@ Proof.
   rewrite <- (disk_list_spec fnm (d :: fl_disk) pname [] Hall Hne).
   destruct fl_file, missing, error; reflexivity.
 Qed.
+
+(** * The rule named by the verbose messages of the scan (the [reason] out-parameter of filter_element) *)
+
+Section Reason.
+Variable fnm : bool -> list N -> list N -> bool.
+
+Lemma filter_reason_from_fst : forall fl i cur dirn disk sub isdir def,
+  fst (filter_reason_from fnm i cur dirn fl disk sub isdir def) = filter_element_from fnm dirn fl disk sub isdir def.
+Proof.
+  induction fl as [|f fl IH]; intros; simpl; [reflexivity|].
+  destruct (rule_matches fnm f disk sub isdir); [reflexivity|apply IH].
+Qed.
+
+Theorem filter_reason_result fl disk sub isdir def :
+  fst (filter_reason fnm fl disk sub isdir def) = filter_element fnm fl disk sub isdir def.
+Proof. apply filter_reason_from_fst. Qed.
+
+(** index of the first rule that matches *)
+Fixpoint first_match_idx (i : nat) (fl : list filter) (disk sub : list N) (isdir : bool) : option nat :=
+  match fl with
+  | [] => None
+  | f :: fl' => if rule_matches fnm f disk sub isdir then Some i else first_match_idx (S i) fl' disk sub isdir
+  end.
+
+(** when the element is excluded, the rule named is the one that decided: the first matching rule (an exclude),
+    or, when no rule matches, the last rule of the list (an include) *)
+Lemma filter_reason_from_spec : forall fl i cur dirn disk sub isdir def,
+  fst (filter_reason_from fnm i cur dirn fl disk sub isdir def) = true ->
+  snd (filter_reason_from fnm i cur dirn fl disk sub isdir def) =
+  match first_match_idx i fl disk sub isdir with
+  | Some k => Some k
+  | None => match fl with [] => cur | _ :: _ => Some (i + length fl - 1)%nat end
+  end.
+Proof.
+  induction fl as [|f fl IH]; intros i cur dirn disk sub isdir def; simpl; [reflexivity|].
+  destruct (rule_matches fnm f disk sub isdir).
+  - simpl. destruct (f_include f); simpl; [discriminate|reflexivity].
+  - intros H. rewrite (IH _ _ _ _ _ _ _ H).
+    destruct (first_match_idx (S i) fl disk sub isdir); [reflexivity|].
+    destruct fl as [|g fl].
+    + simpl in H. destruct def; [discriminate|]. rewrite negb_involutive in H. rewrite H.
+      simpl. f_equal. lia.
+    + f_equal. simpl. lia.
+Qed.
+
+Theorem filter_reason_spec fl disk sub isdir def :
+  fst (filter_reason fnm fl disk sub isdir def) = true ->
+  snd (filter_reason fnm fl disk sub isdir def) =
+  match first_match_idx O fl disk sub isdir with
+  | Some k => Some k
+  | None => match fl with [] => None | _ :: _ => Some (length fl - 1)%nat end
+  end.
+Proof. intros H. unfold filter_reason in *. rewrite (filter_reason_from_spec _ _ _ _ _ _ _ _ H). reflexivity. Qed.
+
+(** the verdict with a reason agrees with the plain verdict *)
+Theorem scan_why_skips nohidden contents fl disk dir sub name isdir :
+  scan_skips fnm nohidden contents fl disk dir sub name isdir = true <->
+  scan_why fnm nohidden contents fl disk dir sub name isdir <> WKeep.
+Proof.
+  unfold scan_skips, scan_why.
+  destruct (filter_hidden nohidden name); simpl; [split; [discriminate|reflexivity]|].
+  destruct (filter_content contents (dir ++ sub)); simpl; [split; [discriminate|reflexivity]|].
+  pose proof (filter_reason_result fl disk sub isdir isdir) as R.
+  destruct (filter_reason fnm fl disk sub isdir isdir) as [ex r]. simpl in R.
+  assert (E : (if isdir then filter_subdir fnm fl disk sub else filter_path fnm fl disk sub) = ex).
+  { rewrite R. destruct isdir; reflexivity. }
+  rewrite E. destruct ex; split; try discriminate; try reflexivity. intros H. exfalso. apply H. reflexivity.
+Qed.
+
+End Reason.
